@@ -101,8 +101,9 @@ pub fn check_source(src: &str, ctx: &Ctx, perm: u8, expected_ast: Option<&Ast>, 
         },
     };
     if !normalise(&tree).same(&ast) {
-        l.label("tree differs from the reference parse (C02/C05)");
-        return Ok(());
+        // the shape is C02/C05's business; the iterators are still held to the identifier
+        // occurrences of the *source* (the reference parse), which is what C14 states
+        l.label("tree differs from the reference parse (C02/C05); iterators still compared with the source's occurrences");
     }
     // (i) occurrence lists
     let mut occ = Vec::new();
